@@ -20,6 +20,7 @@ import (
 	"path/filepath"
 	"regexp"
 	"runtime"
+	"runtime/pprof"
 	"strconv"
 	"strings"
 	"sync"
@@ -106,9 +107,9 @@ func genCfg(r *rand.Rand) cfg {
 	cf.PoolSize = pick(r, 6, 24, 80, 200, 400)
 	cf.tune(r)
 	// history reads fetch 4 KiB at a time: files of ~100 bytes cost dozens of opens per read, so they are rare
-	cf.FileSize = pick(r, 512, 1024, 2048, 4096, 4096, 1<<16, 1<<20, 1<<20)
-	if r.IntN(20) == 0 {
-		cf.FileSize = pick(r, 96, 200)
+	cf.FileSize = pick(r, 2048, 4096, 4096, 8192, 8192, 1<<16, 1<<20, 1<<20)
+	if r.IntN(12) == 0 {
+		cf.FileSize = pick(r, 96, 200, 512, 1024)
 	}
 	return cf
 }
@@ -124,8 +125,9 @@ func (cf *cfg) tune(r *rand.Rand) {
 	cf.CompThld = pick(r, 1, 1, 2, 3)
 	cf.Renew = pick(r, time.Duration(0), time.Nanosecond, time.Hour)
 	cf.DelayComp = pick(r, time.Duration(0), time.Millisecond)
-	cf.NodesFiles = pick(r, 1, 2, 10)
-	cf.HistFiles = pick(r, 1, 3)
+	// few file handles mean an open (header read, buffers) per node or history chunk read: kept in the mix, not dominant
+	cf.NodesFiles = pick(r, 1, 2, 10, 10)
+	cf.HistFiles = pick(r, 1, 3, 10, 10, 10)
 	cf.CLFiles = pick(r, 1, 2)
 }
 
@@ -193,15 +195,17 @@ type seq struct {
 	valCtr    uint64
 	depth     int
 	maxDepth  int
-	conc      bool        // thorough tier: reader goroutines and background compaction
-	dead      atomic.Bool // a violation was recorded: the sequence stops
-	held      int         // snapshots lent to reader goroutines (burst)
+	conc      bool         // thorough tier: reader goroutines and background compaction
+	dead      atomic.Bool  // a violation was recorded: the sequence stops
+	progress  atomic.Int64 // oracle steps taken (watchdog: a sequence that stops moving is reported inconclusive)
+	held      int          // snapshots lent to reader goroutines (burst)
 
 	logMu sync.Mutex
 	log   []string
 }
 
 func (s *seq) logf(f string, a ...any) {
+	s.progress.Add(1)
 	s.logMu.Lock()
 	s.log = append(s.log, fmt.Sprintf(f, a...))
 	s.logMu.Unlock()
@@ -604,6 +608,7 @@ func (s *seq) checkQuery(target, phase string, depth int, rd kvReader, v kvmodel
 		}
 	})
 	s.c.Eval(1)
+	s.progress.Add(1)
 	if !ok {
 		return false
 	}
@@ -707,7 +712,7 @@ func (s *seq) genSpec(r *rand.Rand, v kvmodel.View) (tbtree.ReaderSpec, string) 
 	}
 	sp.InclusiveSeek = r.IntN(2) == 0
 	sp.InclusiveEnd = r.IntN(2) == 0
-	sp.IncludeHistory = r.IntN(4) == 0
+	sp.IncludeHistory = r.IntN(6) == 0
 	if r.IntN(10) < 3 {
 		sp.Offset = uint64(1 + r.IntN(4))
 		if r.IntN(5) == 0 {
@@ -821,7 +826,13 @@ func (s *seq) advance(target, phase string, ss *snapState, rs *rdState, n int) b
 	if rs.resets > 0 {
 		op += "+reset"
 	}
-	for i := 0; n < 0 || i < n; i++ {
+	// "until exhaustion" is bounded: listing versions one by one walks the history
+	// chain of the key from its head for every version (quadratic in the tree)
+	limit := 4000
+	if rs.mode == modeHistory {
+		limit = 60
+	}
+	for i := 0; (n < 0 && i < limit) || i < n; i++ {
 		var k, val []byte
 		var ts, hc uint64
 		var err error
@@ -835,6 +846,7 @@ func (s *seq) advance(target, phase string, ss *snapState, rs *rdState, n int) b
 			return false
 		}
 		s.c.Eval(1)
+		s.progress.Add(1)
 		where := fmt.Sprintf("%s %s between=[%d,%d] on %s as of ts %d, entry %d of %d", op, specString(rs.spec), rs.iTs, rs.fTs, target, ss.ts0, rs.pos, len(rs.exp))
 		if rs.pos >= len(rs.exp) {
 			out := "end"
@@ -916,7 +928,7 @@ func (s *seq) historyReader(r *rand.Rand, target, phase string, ss *snapState) b
 	}
 	defer func() { s.guard("HistoryReader.Close", func() { hr.Close() }) }()
 	off := spec.Offset
-	for round := 0; round < 1000; round++ {
+	for round := 0; round < 24; round++ {
 		var tvs []tbtree.TimedValue
 		if !s.guard("HistoryReader.Read", func() { tvs, err = hr.Read() }) {
 			return false
@@ -1003,14 +1015,15 @@ func (s *seq) probeSnapshot(r *rand.Rand, ss *snapState, n int, allowNewReaders 
 }
 
 // fullCheck compares the whole content reachable through snapshot ss (every
-// key, every version) with the frozen model, through a full history scan in one
-// direction and a plain scan in the other.
+// key, every version) with the frozen model: a plain scan over all keys, the
+// (bounded) start of a history listing in the other direction, and the complete
+// history of every key through one History call each.
 func (s *seq) fullCheck(target, phase string, ss *snapState) bool {
 	desc := s.r.IntN(2) == 0
-	for _, sp := range []tbtree.ReaderSpec{{IncludeHistory: true, DescOrder: desc}, {DescOrder: !desc}} {
+	for _, sp := range []tbtree.ReaderSpec{{DescOrder: !desc}, {IncludeHistory: true, DescOrder: desc}} {
 		rs := &rdState{spec: sp, shape: fmt.Sprintf("full/desc=%v/hist=%v", sp.DescOrder, sp.IncludeHistory)}
 		if sp.IncludeHistory {
-			rs.mode = modeHistory
+			rs.mode = modeHistory // bounded prefix of the listing, see advance
 		}
 		var err error
 		if !s.guard("NewReader", func() { rs.rd, err = ss.s.NewReader(sp) }) {
@@ -1024,6 +1037,14 @@ func (s *seq) fullCheck(target, phase string, ss *snapState) bool {
 		ok := s.advance(target, phase, ss, rs, -1)
 		s.guard("Reader.Close", func() { rs.rd.Close() })
 		if !ok {
+			return false
+		}
+	}
+	// every version of every key, one History call per key
+	v := ss.frozen.Now()
+	for _, k := range v.Keys() {
+		_, n, _ := v.Get(k)
+		if !s.checkQuery(target, phase, ss.depth, ss.s, v, query{kind: 2, key: k, desc: desc, limit: int(n)}) {
 			return false
 		}
 	}
@@ -1669,7 +1690,7 @@ func (s *seq) burst() {
 		for g := 0; g < 1+s.r.IntN(2) && ng < 6; g++ {
 			ng++
 			gr := rand.New(rand.NewPCG(s.r.Uint64(), s.r.Uint64()))
-			steps := 10 + s.r.IntN(40)
+			steps := 5 + s.r.IntN(16)
 			first := g == 0
 			own := &snapState{s: ss.s, ts0: ss.ts0, frozen: ss.frozen, depth: ss.depth, id: ss.id, stale: true}
 			wg.Add(1)
@@ -1848,11 +1869,22 @@ func Run(c *fw.Ctx) {
 		c.Inconclusive(err.Error())
 		return
 	}
+	if pf := os.Getenv("VERIF_C10_PROF"); pf != "" { // diagnostics
+		if f, err := os.Create(pf); err == nil {
+			pprof.StartCPUProfile(f)
+			defer pprof.StopCPUProfile()
+		}
+	}
 	nseq := c.N(40, 1000)
 	nops := c.N(400, 1500)
+	// diagnostics: VERIF_C10_SEQ=n runs only sequence n, VERIF_C10_MAXSEQ=n only the first n
+	// (the sequences themselves are unchanged: each one draws from its own PRNG stream)
 	only := -1
 	if v := os.Getenv("VERIF_C10_SEQ"); v != "" {
 		only, _ = strconv.Atoi(v)
+	}
+	if v, err := strconv.Atoi(os.Getenv("VERIF_C10_MAXSEQ")); err == nil && v > 0 && v < nseq {
+		nseq = v
 	}
 	workers := runtime.GOMAXPROCS(0)
 	if workers > 16 {
@@ -1861,6 +1893,7 @@ func Run(c *fw.Ctx) {
 	jobs := make(chan int)
 	var wg sync.WaitGroup
 	var maxDepth sync.Map
+	var active sync.Map // sequence id -> *seq, for the watchdog
 	for w := 0; w < workers; w++ {
 		base := c.Dir(fmt.Sprintf("w%d", w))
 		wg.Add(1)
@@ -1869,7 +1902,9 @@ func Run(c *fw.Ctx) {
 			for i := range jobs {
 				s := &seq{c: c, id: i, r: c.Rand(fmt.Sprintf("c10/seq/%d", i)), dir: filepath.Join(base, "t"), conc: c.Thorough()}
 				t0 := time.Now()
+				active.Store(i, s)
 				panicked, sig, text := fw.Guard(func() { s.run(nops) })
+				active.Delete(i)
 				if os.Getenv("VERIF_C10_TIMING") != "" { // diagnostics only, never part of a verdict
 					fmt.Fprintf(os.Stderr, "seq %d: %.1fs depth=%d %+v\n", i, time.Since(t0).Seconds(), s.maxDepth, s.cf)
 				}
@@ -1885,14 +1920,70 @@ func Run(c *fw.Ctx) {
 			}
 		}()
 	}
-	for i := 0; i < nseq; i++ {
-		if only >= 0 && i != only {
-			continue
-		}
-		jobs <- i
+	// Watchdog: a sequence whose oracle has not taken a step for a very long time
+	// (default 15 min; single steps take milliseconds) is stuck inside an immudb
+	// call. That alone is inconclusive: the run is ended and says so.
+	limit := 15 * time.Minute
+	if v, err := strconv.Atoi(os.Getenv("VERIF_C10_WATCHDOG_S")); err == nil && v > 0 {
+		limit = time.Duration(v) * time.Second
 	}
-	close(jobs)
-	wg.Wait()
+	finished := make(chan struct{})
+	stuck := make(chan string, 1)
+	go func() {
+		type mark struct {
+			n  int64
+			at time.Time
+		}
+		last := map[int]mark{}
+		tick := time.NewTicker(2 * time.Second)
+		defer tick.Stop()
+		for {
+			select {
+			case <-finished:
+				return
+			case now := <-tick.C:
+				found := ""
+				active.Range(func(k, v any) bool {
+					id, sq := k.(int), v.(*seq)
+					n := sq.progress.Load()
+					if m, ok := last[id]; !ok || m.n != n {
+						last[id] = mark{n, now}
+					} else if now.Sub(m.at) > limit {
+						sq.logMu.Lock()
+						tail := sq.log
+						if len(tail) > 3 {
+							tail = tail[len(tail)-3:]
+						}
+						found = fmt.Sprintf("sequence %d (%+v) made no step for %s; last operations: %s", id, sq.cf, limit, strings.Join(tail, " | "))
+						sq.logMu.Unlock()
+						return false
+					}
+					return true
+				})
+				if found != "" {
+					stuck <- found
+					return
+				}
+			}
+		}
+	}()
+	go func() {
+		for i := 0; i < nseq; i++ {
+			if only >= 0 && i != only {
+				continue
+			}
+			jobs <- i
+		}
+		close(jobs)
+		wg.Wait()
+		close(finished)
+	}()
+	select {
+	case <-finished:
+	case why := <-stuck:
+		c.Inconclusive("watchdog: " + why)
+		c.Set("ended_by_watchdog", true)
+	}
 	deepest, hist := 0, map[int]int{}
 	maxDepth.Range(func(_, v any) bool {
 		d := v.(int)
